@@ -1010,6 +1010,115 @@ example : (processActions envU fsU [.symlink .replace, .ifchanged, .replace] [7]
     (processActions envU fsU [.symlink .skip, .ifchanged, .replace] [7] []).status = 0 ∧
     (processActions envU fsU [.symlink .error, .ifchanged, .replace] [7] []).sysexit = some 7 := by decide
 
+/-! ### Defect round: `--verbose` fail-fast (C09-2) and unsafe argument names (C09-1a) -/
+
+/-- With both variant bits off `mainV` is `mainNamed` (the model the earlier theorems are about). -/
+theorem mainV_plain (env : Env) (keep tty : Bool) (opts : List Opt) (name : Path → Str) (fs : FS)
+    (args : List Path) (ans : List Str) :
+    mainV env keep tty false false opts name fs args ans = (mainNamed env keep tty opts name fs args ans, none) := by
+  unfold mainV mainNamed main processActions
+  cases hparse : parseOptions keep tty opts with
+  | error e => cases e <;> simp
+  | ok acts =>
+    by_cases hall : args.all (fun p => safeName (name p)) = true
+    · have hf : args.filter (fun p => safeName (name p)) = args :=
+        List.filter_eq_self.mpr (fun a ha => List.all_eq_true.mp hall a ha)
+      have hu : args.filter (fun p => !safeName (name p)) = [] := by
+        rw [List.filter_eq_nil_iff]; intro a ha; simp [List.all_eq_true.mp hall a ha]
+      simp [hall, hf, hu, initRun]
+    · simp [hall]
+
+/-- Fail-fast loop: when no exception left the tool, it did exactly what the collecting loop does. -/
+theorem processFilesFF_none (env : Env) (acts : List Action) : ∀ (ps : List Path) (s : Run),
+    (processFilesFF env acts ps s).2 = none → (processFilesFF env acts ps s).1 = processFiles env acts ps s
+  | [], _, _ => rfl
+  | p :: ps, s, h => by
+    unfold processFilesFF at h ⊢
+    unfold processFiles
+    split at h
+    · simp at h
+    · rename_i hoc
+      simp only [] at h ⊢
+      split
+      · split at h
+        · rfl
+        · rename_i h1 _ h2; simp_all
+      · split at h
+        · rename_i h1 _ _ h2; simp_all
+        · exact processFilesFF_none env acts ps _ h
+
+/-- **C09_failfast_stops** (the defect C09-2 in model terms).  Under fail-fast, an `error` outcome at `p`
+    ends the loop there: the result is the state right after `p`'s turn, whatever files follow — none of them is
+    begun, read, rewritten or written. -/
+theorem C09_failfast_stops (env : Env) (acts : List Action) (p : Path) (post : List Path) (s : Run) (e : ErrKind)
+    (he : (runActions env acts s.fs (MState.fresh p) s.ans).oc = .error e) :
+    processFilesFF env acts (p :: post) s = (processFile env acts s p, some ⟨p, e⟩) := by
+  unfold processFilesFF
+  simp [he]
+
+/-- **C09_unsafe_isolated** (tree with `fixes/C09-1a.diff`).  An argument whose name `Filename` refuses no
+    longer refuses the run: provided SystemExit cannot occur, the exit status is non-zero, the final message
+    names that argument as a bad file name, and the loop over files is the collecting loop over the expansion of the
+    *other* arguments. -/
+theorem C09_unsafe_isolated (env : Env) (keep tty : Bool) (opts : List Opt) (name : Path → Str) (fs : FS)
+    (args : List Path) (ans : List Str) (acts : List Action) (p : Path)
+    (hparse : parseOptions keep tty opts = .ok acts) (hp : p ∈ args) (hu : safeName (name p) = false)
+    (hno : noSysExit fs acts (filenameArgs fs (args.filter fun q => safeName (name q))).files = true) :
+    (mainV env keep tty true false opts name fs args ans).2 = none ∧
+    (mainV env keep tty true false opts name fs args ans).1.status ≠ 0 ∧
+    (⟨p, .badFilename⟩ : Msg) ∈ (mainV env keep tty true false opts name fs args ans).1.summary ∧
+    (mainV env keep tty true false opts name fs args ans).1.sysexit = none := by
+  unfold mainV
+  simp only [hparse, Bool.not_true, Bool.false_and, Bool.false_eq_true, if_false]
+  generalize hinit : initRun fs _ ans = init
+  have hinit_h : init.halted = none := by rw [← hinit]; rfl
+  have hinit_fs : init.fs = fs := by rw [← hinit]; rfl
+  have hall := processFiles_nohalt (env := env) hno
+    (filenameArgs fs (args.filter fun q => safeName (name q))).files init (fun _ h => h) hinit_h
+    (fun q h => by rw [hinit_fs]; exact h)
+  have hmem : (⟨p, .badFilename⟩ : Msg) ∈ init.errors := by
+    rw [← hinit]
+    simp only [initRun, List.map_append, List.mem_append, List.mem_map]
+    exact Or.inl ⟨p, List.mem_filter.mpr ⟨hp, by simp [hu]⟩, rfl⟩
+  have hm := processFiles_errors_mono env acts
+    (filenameArgs fs (args.filter fun q => safeName (name q))).files init _ hmem
+  refine ⟨trivial, ?_, ?_, ?_⟩ <;> simp only [finish, hall]
+  · split
+    · rename_i hemp
+      simp only [List.isEmpty_iff] at hemp
+      rw [hemp] at hm; simp at hm
+    · simp
+  · split
+    · rename_i hemp
+      simp only [List.isEmpty_iff] at hemp
+      rw [hemp] at hm; simp at hm
+    · exact hm
+  · split <;> rfl
+
+/-- the names used by the witnesses below: path 5's name has a blank, the others are ordinary -/
+def nameW : Path → Str := fun p => if p = 5 then "/w/my module.py".toList else "/w/ok.py".toList
+
+/-- C09-2 witness: `tidy-imports --verbose -r bad.py c.py` (5 does not parse, 3 would be rewritten).  Collecting
+    loop: 3 is rewritten and 5 is named; fail-fast loop: the error of 5 leaves the tool, 3 is never begun. -/
+theorem C09_2_witness :
+    (mainV envW true false false false [.replace] (fun _ => "/w/ok.py".toList) fsW [5, 3] []).1.fs 3 = some (.file 11 false) ∧
+    (mainV envW true false false false [.replace] (fun _ => "/w/ok.py".toList) fsW [5, 3] []).1.summary = [⟨5, .rewriter⟩] ∧
+    (mainV envW true false false true [.replace] (fun _ => "/w/ok.py".toList) fsW [5, 3] []).1.fs 3 = some (.file 10 true) ∧
+    (mainV envW true false false true [.replace] (fun _ => "/w/ok.py".toList) fsW [5, 3] []).2 = some ⟨5, .rewriter⟩ ∧
+    (mainV envW true false false true [.replace] (fun _ => "/w/ok.py".toList) fsW [5, 3] []).1.summary = [] ∧
+    Event.begin 3 ∉ (mainV envW true false false true [.replace] (fun _ => "/w/ok.py".toList) fsW [5, 3] []).1.ev := by
+  decide
+
+/-- C09-1a witness: `tidy-imports -r 'my module.py' c.py`.  Refusing variant: nothing is processed (3 keeps its
+    node); isolating variant: 3 is rewritten, 'my module.py' is reported as a bad file name, status 1. -/
+theorem C09_1a_witness :
+    (mainV envW true false false false [.replace] nameW fsW [5, 3] []).1.fs 3 = some (.file 10 true) ∧
+    (mainV envW true false false false [.replace] nameW fsW [5, 3] []).1.summary = [] ∧
+    (mainV envW true false true false [.replace] nameW fsW [5, 3] []).1.fs 3 = some (.file 11 false) ∧
+    (mainV envW true false true false [.replace] nameW fsW [5, 3] []).1.summary = [⟨5, .badFilename⟩] ∧
+    (mainV envW true false true false [.replace] nameW fsW [5, 3] []).1.status = 1 := by
+  decide
+
 end Witness
 
 end Pfb.C09
